@@ -88,6 +88,23 @@ theorem checkInRange_spec (a lo hi : Int) :
         simp [h1, h1', h2, h3, this]
     · simp [h1, h1', h2]
 
+/-- the two coin comparisons every "enough balance" test goes through: plain order on the amounts
+    when both are present -/
+theorem coin_comparisons_spec (c v : Int) :
+    Funcs.coinLessThan c false v false = decide (c < v) ∧
+    Funcs.coinLessThanEqual c false v false = decide (c ≤ v) := by
+  unfold Funcs.coinLessThan Funcs.coinLessThanEqual
+  constructor
+  · by_cases h : c < v <;> simp [h]
+  · by_cases h : c ≤ v <;> simp [h]
+
+/-- a quirk of the source worth knowing (and harmless where the callers build their coins from
+    store records, which are never nil): when EITHER amount is nil the LEFT one counts as zero -/
+theorem coin_comparison_nil_quirk (c v : Int) :
+    Funcs.coinLessThan c false v true = decide (0 < v) := by
+  unfold Funcs.coinLessThan
+  by_cases h : (0 : Int) < v <;> simp [h]
+
 /-! ### one `Int64()` -/
 
 theorem ledger_wrap64_is_source (x : Int) : Ledger.wrap64 x = Funcs.wrap64 x := by
